@@ -12,6 +12,10 @@
 //   K<sig>            die by signal sig
 //   I<sig>            ignore signal sig
 //   Z                 never exit (pause forever)
+//   G<mask>,<secs>    start a background descendant (fork, no exec) that keeps the inherited descriptors named by
+//                     mask (bit 0 = stdin, bit 1 = stdout, bit 2 = stderr) open, closes everything else, writes
+//                     nothing and lives for secs seconds - or until the process that started the child (the
+//                     harness worker) is gone; the child itself carries on with the next op at once
 // Falling off the end of the script is exit(0). Pattern bytes are a function of (stream, offset), so the
 // model knows every byte the child writes. After every op that reads stdin (and at exit) the child records
 // count and FNV-1a hash of everything it has read in a side file.
@@ -24,6 +28,7 @@
 #include <stdlib.h>
 #include <string.h>
 #include <sys/prctl.h>
+#include <time.h>
 #include <unistd.h>
 
 #include <string>
@@ -190,6 +195,26 @@ inline bool child_write_all(int fd, const char* p, size_t n) {
         for (;;) pause();
       }
       case 'I': signal(static_cast<int>(op.a[0]), SIG_IGN); break;
+      case 'G': {
+        pid_t starter = getppid(); // the worker that called run_process / communicate
+        pid_t g = fork();
+        if (g == 0) {
+          // PR_SET_PDEATHSIG is not inherited: this process outlives the child, like a daemon or `cmd &` would
+          for (int fd = 0; fd < 3; fd++)
+            if (!((op.a[0] >> fd) & 1)) ::close(fd);
+          for (int fd = 3; fd < 256; fd++) ::close(fd);
+          struct timespec t0, t;
+          clock_gettime(CLOCK_MONOTONIC, &t0);
+          for (;;) {
+            clock_gettime(CLOCK_MONOTONIC, &t);
+            if (static_cast<uint64_t>(t.tv_sec - t0.tv_sec) >= op.a[1]) break;
+            if (::kill(starter, 0) != 0 && errno == ESRCH) break; // never outlive the case
+            usleep(50000);
+          }
+          _exit(0);
+        }
+        break;
+      }
       case 'Z':
         rec.ops_done++;
         record();
